@@ -44,6 +44,25 @@ func Do(env *build.Env, text, opName string, vars map[string]interface{}, o *val
 	return &Run{Entry: "Do", Result: res, Events: env.Log.Snapshot()}
 }
 
+// Subscribe runs graphql.Subscribe and drains the result channel (the
+// instrumented Subscribe functions answer with a one-shot payload, so the
+// channel closes after one result).
+func Subscribe(env *build.Env, text, opName string, vars map[string]interface{}, o *values.Outcomes, ctx context.Context) (*Run, []*graphql.Result) {
+	begin(env, o)
+	var all []*graphql.Result
+	for r := range graphql.Subscribe(graphql.Params{Schema: env.Schema, RequestString: text, OperationName: opName, VariableValues: vars, Context: ctx}) {
+		all = append(all, r)
+		if len(all) > 16 {
+			break
+		}
+	}
+	run := &Run{Entry: "Subscribe", Events: env.Log.Snapshot()}
+	if len(all) > 0 {
+		run.Result = all[0]
+	}
+	return run, all
+}
+
 // Execute runs graphql.Execute on a parsed document.
 func Execute(env *build.Env, doc *ast.Document, opName string, vars map[string]interface{}, o *values.Outcomes, ctx context.Context) *Run {
 	begin(env, o)
